@@ -957,27 +957,49 @@ func ruleC09MeterArray(w *World, r *Report) {
 		}
 	}
 	reset := w.Fn(P, "pfcpiface.(*UP4).resetMeters")
-	for _, c := range callsIn(reset, func(c ssa.CallInstruction) bool {
-		return staticCallee(c) != nil && staticCallee(c).Name() == "resetMeter"
-	}) {
-		n++
-		k, isK := constInt(c.Common().Args[1])
-		kind := int64(-1)
-		for _, mt := range []int64{mtApp, mtSess} {
-			mt := mt
-			if onlyVia(reset, c.(ssa.Instruction), func(a, b *ssa.BasicBlock) bool {
-				x, op, y, ok := edgeFact(a, b)
-				kk, isKK := constInt(y)
-				return ok && op == token.EQL && isKK && kk == mt && strings.HasSuffix(symOf(x).String(), ".meterType")
-			}) {
-				kind = mt
+	// for each kind of meter: follow the paths that kind takes (every comparison of the meter's type with a
+	// constant decided, everything else both ways) and look at the array each reset call names on them
+	for _, kind := range []struct {
+		mt, arr int64
+		name    string
+	}{{mtApp, appArr, "application"}, {mtSess, sessArr, "session"}} {
+		kind := kind
+		decide := func(cond ssa.Value) (bool, bool) {
+			bo, ok := cond.(*ssa.BinOp)
+			if !ok || (bo.Op != token.EQL && bo.Op != token.NEQ) {
+				return false, false
 			}
+			x, y := bo.X, bo.Y
+			if _, isK := constInt(x); isK {
+				x, y = y, x
+			}
+			k, isK := constInt(y)
+			if !isK || !strings.HasSuffix(symOf(x).String(), ".meterType") {
+				return false, false
+			}
+			return (k == kind.mt) == (bo.Op == token.EQL), true
 		}
-		want := appArr
-		if kind == mtSess {
-			want = sessArr
+		seenCall := map[ssa.Instruction]bool{}
+		done := walkUnder(reset, decide, func(i ssa.Instruction, phiConst func(ssa.Value) (int64, bool)) {
+			c, ok := i.(ssa.CallInstruction)
+			if !ok || staticCallee(c) == nil || staticCallee(c).Name() != "resetMeter" {
+				return
+			}
+			k, isK := phiConst(c.Common().Args[1])
+			if seenCall[i] && isK && k == kind.arr {
+				return
+			}
+			if !seenCall[i] {
+				seenCall[i] = true
+			}
+			key := fmt.Sprintf("%s meter, reset call #%d", kind.name, len(seenCall))
+			n++
+			r.check(isK && k == kind.arr, "R09.9", w.FuncName(reset), "a meter is reset in the array of its kind ("+key+")", w.Pos(c.Pos()), fmt.Sprintf("array %d for a meter of type %d", k, kind.mt), fmt.Sprintf("a meter of type %d (%s) is reset in meter array %d instead of %d: the cells of the other kind's array at the same indices — possibly a live session's meter — are overwritten with 'unmetered', and the released meter keeps its old rate", kind.mt, kind.name, k, kind.arr))
+		})
+		if !done {
+			brokenf(P, "R09.9", "resetMeters has too many paths to enumerate")
 		}
-		r.check(isK && kind >= 0 && k == want, "R09.9", w.FuncName(reset), "a meter is reset in the array of its kind", w.Pos(c.Pos()), fmt.Sprintf("array %d under meterType %d", k, kind), fmt.Sprintf("under meterType == %d the reset goes to meter array %d instead of %d: the cells of the other kind's array at the same indices — possibly a live session's meter — are overwritten with 'unmetered', and the released meter keeps its old rate", kind, k, want))
+		r.check(len(seenCall) > 0, "R09.9", w.FuncName(reset), "a released "+kind.name+" meter is reset", w.Pos(reset.Pos()), "a reset call lies on its paths", "no reset call is reachable for a meter of type "+fmt.Sprint(kind.mt)+": its cells keep the old rates when they are handed to the next session")
 	}
 	r.floor("R09.9 meter array uses", n, 5)
 }
@@ -992,9 +1014,43 @@ func ruleC09QciTable(w *World, r *Report) {
 	fn := w.FuncName(f)
 	loops := rangeLoopsOver(f, "QciQosConfig")
 	r.floor("R09.10 loop over the configured QCI entries", len(loops), 1)
+	// the table: what is read from the field, or a map made here that is stored into the field on every path
+	// to the return (the table may be assembled in a local first)
+	isFieldStore := func(i ssa.Instruction) bool {
+		st, ok := i.(*ssa.Store)
+		if !ok {
+			return false
+		}
+		fa, ok := st.Addr.(*ssa.FieldAddr)
+		return ok && fieldVar(fa) != nil && fieldVar(fa).Name() == "qciQosMap"
+	}
+	isTable := func(v ssa.Value) bool {
+		if strings.HasSuffix(symOf(v).String(), "qciQosMap") {
+			return true
+		}
+		mm, ok := v.(*ssa.MakeMap)
+		if !ok {
+			return false
+		}
+		for _, ref := range *mm.Referrers() {
+			if st, ok := ref.(*ssa.Store); ok && st.Val == ssa.Value(mm) && isFieldStore(st) {
+				return mustPass(f, nil, isReturn, func(i ssa.Instruction) bool { return i == ssa.Instruction(st) }) == nil
+			}
+		}
+		return false
+	}
+	// every value stored in the table is a fresh entry: `table[0] == nil` then says "not configured"
+	allFresh := true
+	allInstrs(f, func(i ssa.Instruction) {
+		if mu, ok := i.(*ssa.MapUpdate); ok && isTable(mu.Map) {
+			if _, isAlloc := mu.Value.(*ssa.Alloc); !isAlloc {
+				allFresh = false
+			}
+		}
+	})
 	isConfStore := func(i ssa.Instruction) bool {
 		mu, ok := i.(*ssa.MapUpdate)
-		return ok && strings.HasSuffix(symOf(mu.Map).String(), "qciQosMap") && strings.Contains(symOf(mu.Key).String(), "QCI")
+		return ok && isTable(mu.Map) && strings.Contains(symOf(mu.Key).String(), "QCI")
 	}
 	for _, l := range loops {
 		r.check(everyIteration(f, l[1], l[0], isConfStore), "R09.10", fn, "every configured QCI entry is stored", w.Pos(f.Pos()), "map update on every iteration", "an iteration over qci_qos_config can skip its entry (e.g. because the key is already present): the operator's entry — in particular \"qci\": 0, the fallback for unlisted QFIs and every session QER — is dropped in favour of what was there before")
@@ -1003,12 +1059,22 @@ func ruleC09QciTable(w *World, r *Report) {
 	allInstrs(f, func(i ssa.Instruction) {
 		switch x := i.(type) {
 		case *ssa.MapUpdate:
-			if _, fresh := x.Map.(*ssa.MakeMap); !fresh && !strings.HasSuffix(symOf(x.Map).String(), "qciQosMap") {
+			if _, fresh := x.Map.(*ssa.MakeMap); !fresh && !isTable(x.Map) {
 				return
 			}
 			if k, isK := constInt(x.Key); isK && k == 0 {
 				n++
 				g := onlyVia(f, x, func(a, b *ssa.BasicBlock) bool {
+					if allFresh {
+						// table[0] == nil
+						if xv, op, y, ok := edgeFact(a, b); ok && op == token.EQL && isNilConst(y) {
+							if lk, isLk := xv.(*ssa.Lookup); isLk && !lk.CommaOk && isTable(lk.X) {
+								if kk, isKK := constInt(lk.Index); isKK && kk == 0 {
+									return true
+								}
+							}
+						}
+					}
 					v, truth, ok := boolEdge(a, b)
 					if !ok || truth {
 						return false
@@ -1018,7 +1084,7 @@ func ruleC09QciTable(w *World, r *Report) {
 						return false
 					}
 					lk, isLk := ex.Tuple.(*ssa.Lookup)
-					if !isLk || !strings.HasSuffix(symOf(lk.X).String(), "qciQosMap") {
+					if !isLk || !isTable(lk.X) {
 						return false
 					}
 					kk, isKK := constInt(lk.Index)
